@@ -1202,7 +1202,7 @@ impl ASN1Value {
                         highest_distinguished_bit,
                         o,
                         distinguished,
-                    ));
+                    )?);
                     Ok(())
                 } else {
                     Err(GrammarError {
@@ -1226,7 +1226,7 @@ impl ASN1Value {
                         highest_distinguished_bit,
                         o,
                         distinguished,
-                    ));
+                    )?);
                     Ok(())
                 } else {
                     Err(GrammarError {
@@ -1723,12 +1723,23 @@ impl ASN1Value {
     }
 }
 
+/// The highest named bit of a BIT STRING type for which values
+/// given as lists of named bits are written out bit by bit.
+const MAX_NAMED_BIT_IN_VALUE: i128 = u16::MAX as i128;
+
 fn bit_string_value_from_named_bits(
     highest_distinguished_bit: i128,
     named_bits: &[String],
     distinguished: &[DistinguishedValue],
-) -> Vec<bool> {
-    (0..=highest_distinguished_bit)
+) -> Result<Vec<bool>, GrammarError> {
+    if highest_distinguished_bit > MAX_NAMED_BIT_IN_VALUE {
+        return Err(grammar_error!(
+            LinkerError,
+            "BIT STRING values of types with named bits beyond bit {} are not supported",
+            MAX_NAMED_BIT_IN_VALUE
+        ));
+    }
+    Ok((0..=highest_distinguished_bit)
         .map(|i| {
             named_bits.iter().any(|bit| {
                 Some(bit)
@@ -1737,7 +1748,7 @@ fn bit_string_value_from_named_bits(
                         .find_map(|d| (d.value == i).then_some(&d.name))
             })
         })
-        .collect()
+        .collect())
 }
 
 #[cfg(test)]
